@@ -4,6 +4,7 @@ package main
 
 import (
 	"fmt"
+	"go/constant"
 	"go/token"
 	"go/types"
 	"sort"
@@ -263,6 +264,31 @@ func alwaysRuns(fn *ssa.Function, b *ssa.BasicBlock) bool {
 	return false
 }
 
+// runsWhenNonEmpty: the block is the true branch of `if key != ""` tested in a block that always runs - the helper
+// stores the name whenever one is written there (the obligations are stated under "a name is written there")
+func runsWhenNonEmpty(fn *ssa.Function, b *ssa.BasicBlock, key ssa.Value) bool {
+	if len(b.Preds) != 1 {
+		return false
+	}
+	p := b.Preds[0]
+	if len(p.Instrs) == 0 || !alwaysRuns(fn, p) || len(p.Succs) != 2 || p.Succs[0] != b {
+		return false
+	}
+	br, ok := p.Instrs[len(p.Instrs)-1].(*ssa.If)
+	if !ok {
+		return false
+	}
+	cmp, ok := br.Cond.(*ssa.BinOp)
+	if !ok || cmp.Op != token.NEQ {
+		return false
+	}
+	isEmpty := func(v ssa.Value) bool {
+		c, ok := v.(*ssa.Const)
+		return ok && c.Value != nil && c.Value.Kind() == constant.String && constant.StringVal(c.Value) == ""
+	}
+	return (cmp.X == key && isEmpty(cmp.Y)) || (cmp.Y == key && isEmpty(cmp.X))
+}
+
 // helperCovers: the paths (relative to parameter pi of the same-package helper fn) whose names the helper always
 // stores into the table set: "" (the parameter's own Name), "[]" (every element of a slice parameter), "[].Right" ...
 func helperCovers(fn *ssa.Function, pi int) []string {
@@ -272,7 +298,12 @@ func helperCovers(fn *ssa.Function, pi int) []string {
 	var out []string
 	keys, blocks := fnSinks(fn)
 	for i, k := range keys {
-		if p, ok := keyOrigin(k, fn.Params[pi], 0); ok && alwaysRuns(fn, blocks[i]) {
+		runs := alwaysRuns(fn, blocks[i]) || runsWhenNonEmpty(fn, blocks[i], k)
+		if k == ssa.Value(fn.Params[pi]) && runs {
+			out = append(out, "@key") // the helper is handed the name itself
+			continue
+		}
+		if p, ok := keyOrigin(k, fn.Params[pi], 0); ok && runs {
 			out = append(out, p)
 		}
 	}
@@ -441,8 +472,18 @@ func runC15(e *Engine, tier Tier) *PropRun {
 				for _, s := range sinks {
 					var ps []string
 					if s.arg != nil {
+						for _, r := range s.rel {
+							if r == "@key" {
+								if p, ok := keyOrigin(s.arg, base, 0); ok {
+									ps = append(ps, p)
+								}
+							}
+						}
 						if ap, ok := argOrigin(s.arg, base); ok {
 							for _, r := range s.rel {
+								if r == "@key" {
+									continue
+								}
 								if r == "" || strings.HasPrefix(r, "[") {
 									ps = append(ps, ap+r)
 								} else {
